@@ -10,6 +10,7 @@ open Emboss.Bounds
 #print axioms C05_inv_transfer_max
 #print axioms C05_inv_leaves
 #print axioms C05_inv_preserved
+#print axioms C05_no_crash_arith
 #print axioms C05_inv_needs_canonical_counterexample
 #print axioms C05_inv_preserved_counterexample
 #print axioms C05_crash_counterexample
